@@ -61,6 +61,26 @@ STRENGTHENED = {
  "C12_h": "missed at first; the selected calls made before the mid-case incremental replacement are repeated unchanged (same method, same name list, same engine) right after it",
  "C15_g": "missed at first; locals assigned from an element of injected data (an addressable location) added next to locals assigned from constants",
  "C15_h": "missed at first; function-valued locals added to the leak probe (a rule that never assigned hfn calls it; a rule that assigned its own calls it)",
+ "C01_j": "missed at first; rule names with leading / trailing blanks added (@name is the registered name)",
+ "C03_i": "missed at first; two different struct types with the same type name and another field layout are injected one after the other under one name (re-injection sub-check)",
+ "C03_j": "an argument buffer kept on the shared syntax-tree node: invisible to the single-threaded C03 programs, caught by the pool storm (C06 foreign-arguments) and by C19",
+ "C06_i": "missed at first; k4 is now ALSO the name of an object the pool was built with, requests inject their own k4 over it",
+ "C07_j": "caught since ClearPoolRules is part of the C07 histories (the cleared state is modelled: nothing runs until a full or incremental update)",
+ "C09_i": "caught since the random part ranges over containers that grow while they are ranged over (the call has to come back)",
+ "C09_j": "caught since the construct 'two failing three-level calls in one conc block' is in the catalog: the call hangs",
+ "C10_i": "caught since C10 submits texts in states that earlier management calls produced, among them the very text of the initial load once more",
+ "C14_i": "missed at first; the stop tag is a struct-valued member of an injected holder and a third of the setters reach it through the three-level path stagh.S.StopTag",
+ "C15_i": "missed at first by C15 (caught by C02 once locals bound to slice-typed fields were generated); the C15 probe now keeps a slice in a local while the field it came from is replaced",
+ "C15_j": "missed at first; a forRange whose loop variable is an injected pointer scalar added (C02: host state, C15 probe: the host sees the last index)",
+ "C18_j": "missed at first; a conc block that directly follows another conc block and reads a local the first one assigned",
+ "C19_j": "missed at first; conc members call methods on a LOCAL that holds the injected object (dotted name headed by a local) next to members assigning locals",
+ "C20_i": "missed at first; one text in five is delivered twice - first five lines further down, then (incrementally) at its final place - and the text compiled last must be cited",
+ "C04_c": "caught by C04 itself since the mid-case incremental update carries several rules (replacements, a moved rule, a new rule) in one text",
+ "C04_e": "caught by C04 itself since the stop-tag variants of the sorted loops are among its entry points",
+ "C07_d": "caught by C07 itself since ClearPoolRules is part of its histories",
+ "C07_g": "caught by C07 itself since its histories also remove every installed rule",
+ "C10_e": "caught by C10 itself since texts are submitted in the state 'one rule removed'",
+ "C10_f": "caught by C10 itself since texts are submitted to an emptied / cleared pool",
 }
 rows = []
 for d in sorted(glob.glob('/verif/seeded/C[0-9]*_[a-z]')):
